@@ -467,3 +467,89 @@ def _chief_is_unit_field(n, stop, finite, field):
 # (observation recorded in DESIGN.md; marginal_ray()/chief_ray(), which the property names, are unaffected)
 for (_n, _s, _f, _fl) in ((4, 2, False, 'angle'), (4, 2, True, 'object_height'), (4, 2, True, 'angle'), (4, 1, True, 'object_height')):
     _chief_is_unit_field(_n, _s, _f, _fl)
+
+
+# ---- composition machine-checked on small symbolic lenses: the whole real trace over jets -------------------------------------
+def _two_surface_lens(c, s1, s2, finite, field):
+    """finite object, conic stop surface (radius s1*R1, k1 > -1), plane image surface; every length a positive symbol.
+    (A second powered surface makes the exploration run for tens of minutes; s2 is unused.)"""
+    Optic = c.mod('optiland.optic').Optic
+    CoordinateSystem = c.mod('optiland.coordinate_system').CoordinateSystem
+    geos, mats, surfs = c.mod('optiland.geometries'), c.mod('optiland.materials'), c.mod('optiland.surfaces')
+    lens = Optic()
+    T0 = c.real('T0', 5.0, 30.0, positive=True)
+    t1 = c.real('t1', 5.0, 40.0, positive=True)
+    n0, n1 = c.real('n0', 1.0, 2.0, positive=True), c.real('n1', 1.0, 2.0, positive=True)
+    m0, m1 = mats.IdealMaterial(n=n0, k=0.0), mats.IdealMaterial(n=n1, k=0.0)
+    R1 = s1 * c.real('R1abs', 20, 80, positive=True)
+    k1 = c.real('k1_plus_1', 0.2, 1.8, positive=True) - 1
+    sg = lens.surface_group.surfaces
+    sg.append(surfs.ObjectSurface(geos.Plane(CoordinateSystem(z=-T0)), m0))
+    if s2 == 0:
+        sg.append(surfs.Surface(geos.StandardGeometry(CoordinateSystem(z=0.0), R1, k1), m0, m1, is_stop=True))
+        sg.append(surfs.Surface(geos.Plane(CoordinateSystem(z=t1)), m1, m1))
+    else:
+        # a second powered surface (sphere) behind the stop surface, then the image plane
+        n2 = c.real('n2', 1.0, 2.0, positive=True)
+        m2 = mats.IdealMaterial(n=n2, k=0.0)
+        t2 = c.real('t2', 5.0, 40.0, positive=True)
+        sg.append(surfs.Surface(geos.StandardGeometry(CoordinateSystem(z=0.0), R1, k1), m0, m1, is_stop=True))
+        sg.append(surfs.Surface(geos.StandardGeometry(CoordinateSystem(z=t1), s2 * c.real('R2abs', 20, 80, positive=True), 0.0), m1, m2))
+        sg.append(surfs.Surface(geos.Plane(CoordinateSystem(z=t1 + t2)), m2, m2))
+    lens.add_wavelength(0.55, is_primary=True)
+    lens.set_aperture('EPD', c.real('epd', 1.0, 4.0, positive=True))
+    lens.set_field_type(field)
+    lens.add_field(y=0.0)
+    lens.add_field(y=(10.0 if field == 'angle' else 3.0))
+    return lens
+
+
+def _system_jets(s1, s2, finite, field, kind):
+    tag = '%s%s.%s.%s.%s' % ('+' if s1 > 0 else '-', '0' if s2 == 0 else ('+' if s2 > 0 else '-'), 'fin' if finite else 'inf', field, kind)
+
+    @contract('C05.system_jets.' + tag, ['optiland/optic.py:Optic.trace_generic', 'optiland/surfaces/surface_group.py:SurfaceGroup.trace',
+                                         SS + ':Surface._trace_real', 'optiland/paraxial.py:Paraxial.trace', 'optiland/paraxial.py:Paraxial.EPL',
+                                         'optiland/rays/ray_generator.py:RayGenerator.generate_rays'],
+              ['C05'], max_paths=200, concolic=False, groebner_s=40, sqrt_factor=True)
+    def sj(c):
+        """Optic.trace_generic on a symbolic single-surface lens (finite object; any radius, conic, gaps, indices, aperture), executed over jets:
+        at every surface the real height and tangent equal those of Paraxial.trace for the same normalised coordinates up to
+        O(eps^3) -- the composition of launch, entrance-pupil computation, a surface step and the transfer to the image plane, machine-checked"""
+        if c.mode == 'num':
+            return
+        lens = _two_surface_lens(c, s1, s2, finite, field)
+        n = 3 if s2 == 0 else 4
+        pos = (s2 != 0)          # two powered surfaces: upper half only (the lower half is its mirror image, C07)
+        h = c.real('h', 0.05 if pos else -1, 1, positive=pos) if kind == 'chief' else 0.0
+        p = c.real('p', 0.05 if pos else -1, 1, positive=pos) if kind == 'marginal' else 0.0
+        Hy = J.Jet([0, h, 0]) if kind == 'chief' else 0.0
+        Py = J.Jet([0, p, 0]) if kind == 'marginal' else 0.0
+        lens.paraxial.trace(Hy, Py, 0.55)
+        sg = lens.surface_group
+        yp = [J.Jet.lift(c.val(sg.y[k])) for k in range(n)]
+        up = [J.Jet.lift(c.val(sg.u[k])) for k in range(n)]
+        lens.trace_generic(0.0, Hy, 0.0, Py, 0.55)
+        for k in range(1, n):
+            yr = J.Jet.lift(c.val(sg.y[k]))
+            dy = yr - yp[k]
+            for i in range(3):
+                c.ensure_eq('C05.system_jets.height_agrees_with_paraxial_to_second_order', dy.c[i], 0)
+            if k < n - 1:
+                sr = J.Jet.lift(c.val(sg.M[k])) / J.Jet.lift(c.val(sg.N[k]))
+                du = sr - up[k]
+                for i in range(3):
+                    c.ensure_eq('C05.system_jets.tangent_agrees_with_paraxial_to_second_order', du.c[i], 0)
+    return sj
+
+
+for _s1 in (+1, -1):
+    for (_f, _fl) in ((True, 'angle'), (True, 'object_height')):
+        for _kind in ('marginal', 'chief'):
+            _system_jets(_s1, 0, _f, _fl, _kind)
+
+
+import os as _os
+for _s1, _s2 in ((+1, -1), (-1, +1)):
+    # the marginal-type variants explore 40-64 paths at ~2 s each: thorough tier only (same obligations as the other variants)
+    for _kind in (('marginal', 'chief') if _os.environ.get('VERIF_TIER_EFFECTIVE', 'quick') == 'thorough' else ('chief',)):
+        _system_jets(_s1, _s2, True, 'object_height', _kind)
